@@ -33,8 +33,23 @@ theorem computeSphericalTriangle_eq_memo (i o : Nat) (r : Bool) (hi : i ≤ 9) (
   generalize crsGetVertex (transformQuat (toCartesian _ _) (originAt o).quat) = z
   cases x <;> cases y <;> cases z <;> rfl
 
-theorem memoParams_wf : memoParams.WF :=
-  ⟨origins_length, fun _ _ _ => rfl⟩
+theorem memoParams_sphFrom (ft : FaceTriangle) (k : SKey) : memoParams.sphFrom ft k = memoSphFrom ft k := by
+  simp only [memoParams]
+
+theorem computeSphericalTriangle_eq_memo' (i o : Nat) (r : Bool) (hi : i ≤ 9) (ho : o < 12) :
+    computeSphericalTriangle i o r = (memoParams.sphFrom (memoParams.faceVal ⟨i, r, true⟩) ⟨o, i, r⟩).1 := by
+  rewrite [memoParams_sphFrom]
+  exact computeSphericalTriangle_eq_memo i o r hi ho
+
+theorem memoParams_faceVal (k : FKey) :
+    memoParams.faceVal k =
+      if k.reflected then reflectedFaceTriangle k.idx k.squashed else baseFaceTriangle k.idx := Eq.trans rfl rfl
+
+/-- (stated via rewriting, not `rfl`: the kernel would otherwise unfold the float triangle computations) -/
+theorem memoParams_wf : memoParams.WF := by
+  refine ⟨origins_length, fun i s s' => ?_⟩
+  rewrite [memoParams_faceVal, memoParams_faceVal]
+  simp only [Bool.false_eq_true, if_false]
 
 theorem memoParams_classify_origin (a : DCall) : (memoParams.classify a).origin = a.origin := by
   show (let (rho, gamma) := a.polar
@@ -72,7 +87,7 @@ theorem memo_pureCall_outcomes (a : DCall) :
       (by simp only [Gen.NUM_ORIGINS_WORLD]; omega))), if_neg ho,
       pureFace_ok memoParams ⟨ki, kr, true⟩ (by simp only [Gen.FACE_TRIANGLE_MAX]; exact hidx)]
     dsimp only
-    exact (computeSphericalTriangle_eq_memo ki ko kr hidx (by omega)).symm
+    exact (computeSphericalTriangle_eq_memo' ki ko kr hidx (by omega)).symm
   rewrite [hs]
   have hw := computeSphericalTriangle_okOrCrs ki ko kr hidx (by omega)
   cases hc : computeSphericalTriangle ki ko kr with
@@ -101,27 +116,31 @@ theorem memo_history_outcomes (h : List DCall) (a : DCall) :
 
 /-! ### the finite check behind `crsVertex`-freeness -/
 
+theorem bool_mem_ft (b : Bool) : b ∈ [false, true] := by
+  cases b
+  · exact List.mem_cons_self
+  · exact List.mem_cons_of_mem _ List.mem_cons_self
+
 /-- the driver's boolean `memoSphTotalCheck` (all 12 · 10 · 2 keys compute) implies that no projection
 call, forward or inverse, with a real face can fail -/
 theorem sphTrianglesCompute_of_check (h : memoSphTotalCheck = true) : SphTrianglesCompute := by
   intro i o r hi ho
+  have hmem : r ∈ [false, true] := bool_mem_ft r
   unfold memoSphTotalCheck at h
   rewrite [List.all_eq_true] at h
   have h1 := h o (List.mem_range.2 (by rewrite [origins_length]; exact ho))
   rewrite [List.all_eq_true] at h1
   have h2 := h1 i (List.mem_range.2 (by omega))
   rewrite [List.all_eq_true] at h2
-  have h3 := h2 r (by cases r; exact List.mem_cons_self; exact List.mem_cons_of_mem _ List.mem_cons_self)
-  rewrite [computeSphericalTriangle_eq_memo i o r hi ho]
-  have h3' : (match memoSphFrom (memoParams.faceVal ⟨i, r, true⟩) ⟨o, i, r⟩ with
-      | (.ok _, n) => decide (n ≤ 3)
-      | _ => false) = true := h3
-  generalize memoSphFrom (memoParams.faceVal ⟨i, r, true⟩) ⟨o, i, r⟩ = res at h3' ⊢
+  have h3 := h2 r hmem
+  rewrite [computeSphericalTriangle_eq_memo' i o r hi ho]
+  dsimp only at h3
+  generalize memoParams.sphFrom (memoParams.faceVal ⟨i, r, true⟩) ⟨o, i, r⟩ = res at h3 ⊢
   obtain ⟨x, n⟩ := res
   cases x with
   | ok st => exact ⟨st, rfl⟩
-  | err e => simp only at h3'; cases h3'
-  | panic p => simp only at h3'; cases h3'
+  | err e => simp only at h3; cases h3
+  | panic p => simp only at h3; cases h3
 
 /-- consequently: if the check evaluates to `true`, every decodable id has a centre, and every decodable id
 has a boundary unless a longitude loop of `normalize_longitudes` runs out of fuel -/
